@@ -8,7 +8,7 @@ from fractions import Fraction as Fr
 from hypothesis import strategies as st
 
 from vf.common import Check, HarnessError, Violation, require
-from vf.strategies import CRS_POOL, SINU_PROJ, crs_tags, mk_crs_spec
+from vf.strategies import CRS_POOL, SINU_PROJ, crs_tags, mk_crs, mk_crs_spec
 
 RULE = (
     "Hypothesis-generated geometries of every kind (Point, LineString, LinearRing, Polygon without/with 1-2 holes, "
@@ -419,12 +419,12 @@ def _count_ins_class(n):
 
 
 # ----------------------------------------------------------------------------- local geometry generators
-@functools.lru_cache(maxsize=None)
+@functools.lru_cache(maxsize=None, typed=True)
 def _S(*opts):
     return st.sampled_from(opts)
 
 
-@functools.lru_cache(maxsize=None)
+@functools.lru_cache(maxsize=None, typed=True)
 def _I(lo, hi):
     return st.integers(lo, hi)
 
@@ -432,14 +432,14 @@ def _I(lo, hi):
 _B = st.booleans()
 
 
-@functools.lru_cache(maxsize=None)
+@functools.lru_cache(maxsize=None, typed=True)
 def _u(lo, hi):
     """Uniform on [lo, hi] (Hypothesis' own float strategy is strongly biased to 0 / the bounds / subnormals)."""
     d = st.integers(0, 99)  # ranges <= 127 are drawn uniformly; wider ones are biased towards small values
     return st.tuples(d, d, d).map(lambda t: lo + (hi - lo) * (((t[0] * 100 + t[1]) * 100 + t[2]) / 999999.0))
 
 
-@functools.lru_cache(maxsize=None)
+@functools.lru_cache(maxsize=None, typed=True)
 def _f(lo, hi):
     """Mostly uniform, sometimes Hypothesis' nasty floats (exact bounds, 0, tiny values)."""
     return st.one_of(_u(lo, hi), _u(lo, hi), _u(lo, hi), st.floats(lo, hi, allow_nan=False, allow_infinity=False))
@@ -469,7 +469,7 @@ def _loc_path(draw, fam, nmin=2, nmax=6):
     return pts
 
 
-@functools.lru_cache(maxsize=None)
+@functools.lru_cache(maxsize=None, typed=True)
 def _lattice_pts(R, kmin):
     return st.lists(st.tuples(_I(-R, R), _I(-R, R)).filter(lambda p: p != (0, 0)), min_size=kmin, max_size=8, unique=True)
 
@@ -905,6 +905,44 @@ def o_round_trip(case, T):
         T.nontrivial(("round_trip", kind, a, b))
 
 
+# ----------------------------------------------------------------------------- the point transformer itself
+@st.composite
+def s_transformer(draw):
+    src, dst = _pair_tags(draw)
+    x0, y0, x1, y1 = _isect(CRS_POOL[src["label"]][1], CRS_POOL[dst["label"]][1])
+    n = draw(_I(1, 6))
+    pts = [[x0 + (x1 - x0) * draw(_f(0.0, 1.0)), y0 + (y1 - y0) * draw(_f(0.0, 1.0))] for _ in range(n)]
+    return {"src": src, "dst": dst, "lonlat": pts}
+
+
+def o_transformer(case, T):
+    """CRS.transformer_to_crs (what to_crs maps vertices with): scalars and arrays, inside the valid area."""
+    import numpy as np
+
+    a, b = case["src"]["label"], case["dst"]["label"]
+    P = _chain_tr("4326", a)(case["lonlat"])
+    want = _chain_tr(a, b)(P)
+    f = mk_crs(case["src"]).transformer_to_crs(mk_crs(case["dst"]))
+
+    def close(g, w):
+        tol = 1e-12 * max(abs(w[0]), abs(w[1]), 1.0)
+        return abs(g[0] - w[0]) <= tol and abs(g[1] - w[1]) <= tol
+
+    for p, w in zip(P, want):
+        r = f(p[0], p[1])
+        require(len(r) == 2 and close((float(r[0]), float(r[1])), w), "transformer(%s->%s)(%r, %r) = %r, pyproj gives %r", a, b, p[0], p[1], r, w)
+    xs, ys = np.array([p[0] for p in P]), np.array([p[1] for p in P])
+    xs0, ys0 = xs.copy(), ys.copy()
+    rx, ry = f(xs, ys)
+    require(np.shape(rx) == xs.shape and np.shape(ry) == ys.shape, "array call returned shapes %r %r", np.shape(rx), np.shape(ry))
+    for i, w in enumerate(want):
+        require(close((float(rx[i]), float(ry[i])), w), "transformer(%s->%s) array element %d = %r, pyproj gives %r", a, b, i, (float(rx[i]), float(ry[i])), w)
+    require((xs == xs0).all() and (ys == ys0).all(), "transformer modified its input arrays")
+    T.cls("pair:%s->%s" % (CRS_POOL[a][0][:4], CRS_POOL[b][0][:4]))
+    T.cls("npts:%d" % min(len(P), 3))
+    T.nontrivial(("transformer", a, b, case["src"]["spell"], case["dst"]["spell"]))
+
+
 # ----------------------------------------------------------------------------- same CRS / no CRS
 def _res_arg(draw):
     return draw(_S(None, None, "inf", 0.5, 0.05, 2.0))
@@ -1045,10 +1083,12 @@ def e_examples(tier):
 
 
 def build(chk: Check) -> None:
+    # budgets are per sub-check per shard; their sum bounds the tier's wall time (quick 90 s, thorough 15 min)
     chk.sub("segmented_examples", o_segmented, enum=e_examples, exhaustive_tiers=("quick", "thorough"))
-    chk.sub("segmented", o_segmented, strategy=s_segmented(), n={"quick": 6000, "thorough": 250000}, budget_s={"quick": 70, "thorough": 800})
-    chk.sub("to_crs", o_to_crs, strategy=s_to_crs(), n={"quick": 3000, "thorough": 120000}, budget_s={"quick": 60, "thorough": 800})
-    chk.sub("round_trip", o_round_trip, strategy=s_to_crs(), n={"quick": 1500, "thorough": 60000}, budget_s={"quick": 60, "thorough": 800})
-    chk.sub("same_crs", o_same_crs, strategy=s_same_crs(), n={"quick": 1500, "thorough": 50000}, budget_s={"quick": 60, "thorough": 800})
-    chk.sub("no_crs", o_no_crs, strategy=s_no_crs(), n={"quick": 500, "thorough": 20000}, budget_s={"quick": 60, "thorough": 800})
-    chk.sub("to_crs_resolution", o_to_crs_res, strategy=s_to_crs_res(), n={"quick": 2500, "thorough": 100000}, budget_s={"quick": 70, "thorough": 800})
+    chk.sub("segmented", o_segmented, strategy=s_segmented(), n={"quick": 6000, "thorough": 250000}, budget_s={"quick": 26, "thorough": 310})
+    chk.sub("to_crs", o_to_crs, strategy=s_to_crs(), n={"quick": 3000, "thorough": 120000}, budget_s={"quick": 15, "thorough": 150})
+    chk.sub("transformer", o_transformer, strategy=s_transformer(), n={"quick": 800, "thorough": 30000}, budget_s={"quick": 6, "thorough": 30})
+    chk.sub("round_trip", o_round_trip, strategy=s_to_crs(), n={"quick": 1500, "thorough": 60000}, budget_s={"quick": 10, "thorough": 90})
+    chk.sub("same_crs", o_same_crs, strategy=s_same_crs(), n={"quick": 1500, "thorough": 50000}, budget_s={"quick": 7, "thorough": 60})
+    chk.sub("no_crs", o_no_crs, strategy=s_no_crs(), n={"quick": 500, "thorough": 20000}, budget_s={"quick": 4, "thorough": 30})
+    chk.sub("to_crs_resolution", o_to_crs_res, strategy=s_to_crs_res(), n={"quick": 2500, "thorough": 100000}, budget_s={"quick": 22, "thorough": 230})
